@@ -1,0 +1,28 @@
+//go:build verif
+
+package tls
+
+import "errors"
+
+// VerifC25SendKeyUpdate makes c send a TLS 1.3 KeyUpdate (RFC 8446 section
+// 4.6.3) and move its sending keys to the next generation, as a peer
+// implementation that initiates key updates does.  This library never
+// initiates one itself, so its handling of a received KeyUpdate can only be
+// exercised against such a peer.  Call it after the handshake has completed.
+func VerifC25SendKeyUpdate(c *Conn, requestUpdate bool) error {
+	if !c.handshakeComplete() || c.vers != VersionTLS13 {
+		return errors.New("verif: KeyUpdate needs a completed TLS 1.3 handshake")
+	}
+	cs := cipherSuiteTLS13ByID(c.cipherSuite)
+	if cs == nil {
+		return errors.New("verif: no TLS 1.3 cipher suite")
+	}
+	c.out.Lock()
+	defer c.out.Unlock()
+	msg := &keyUpdateMsg{updateRequested: requestUpdate}
+	if _, err := c.writeRecordLocked(recordTypeHandshake, msg.marshal()); err != nil {
+		return err
+	}
+	c.out.setTrafficSecret(cs, cs.nextTrafficSecret(c.out.trafficSecret))
+	return nil
+}
